@@ -228,6 +228,16 @@ def run(pid, tier, seed, replay=None):
     validate(trace, 'recorded_damaged_packets')
     os.remove(trace)
 
+    if pid == 'C01':
+        # release pass: with overflow checks and debug assertions OFF arithmetic slips wrap instead of panicking, so that what
+        # a debug build reports as a panic (C02) becomes a real access outside the slice: guard page, range check, placement
+        rbin = core.build_harness(release=True)
+        trace = os.path.join(wd, 'rel_trace.ndjson')
+        crashes = core.run_drive(rbin, ['decode-in', '--in', mc['inputs']] + sweep, trace, wd)
+        violations.extend(crash_violations(crashes, pid, inputs_by_id))
+        validate(trace, 'spec_generated_inputs_release_build')
+        os.remove(trace)
+
     if pid == 'C06':
         # second half of C06: reading a header from io::Read == decoding it from a slice (13 header types, every fault position)
         from . import iojob
